@@ -767,5 +767,3 @@ func r163(c *fw.Ctx) {
 		c.Check(okS && okE, rule, "vblock/save-restore-inverse", vs.Pos(), "a virtual block must save and restore exactly the current block and scope")
 	}
 }
-
-func r162(c *fw.Ctx) {}
